@@ -204,6 +204,6 @@ func runC04(c SeqCase, ev *vt.Ev) *vt.Failure {
 
 func TestC04(t *testing.T) {
 	vt.Prop[SeqCase]{ID: "C04", Test: "TestC04",
-		Rule: "rapid-generated histories (5-40 requests: uploads by every protocol, patches, deletes, composes, copies, reads) where 60% of the mutating requests carry drawn precondition sets resolved against the state reached so far (=current, !=current, 0, a previously used generation, unparsable); same truth table and snapshot-after-failure oracle; non-trivial = a request with >=2 conditions, >=1 failed request and >=2 objects alive at the end",
-		Gen:  genHistory(60, false, 5, 40), Run: runC04}.Main(t)
+		Rule: "rapid-generated histories (5-40 requests: uploads by every protocol, patches, deletes, composes, copies, reads) where 60% of the mutating requests carry drawn precondition sets resolved against the state reached so far (=current, !=current, 0, a previously used generation, unparsable), a quarter of the patch bodies also carrying read-only fields (generation/metageneration/size/md5Hash, among them the value of the request's own precondition); same truth table and snapshot-after-failure oracle; non-trivial = a request with >=2 conditions, >=1 failed request and >=2 objects alive at the end",
+		Gen:  genHistory(60, true, 5, 40), Run: runC04}.Main(t)
 }
